@@ -403,8 +403,16 @@ func APLItem(t *rapid.T) wm.APLItem {
 		it.Family, bits = 2, 128
 	}
 	p := Len(t, 0, bits)
-	it.Prefix = uint8(p)
 	addr := Bytes(t, bits/8, false)
+	if it.Family == 2 && rapid.IntRange(0, 3).Draw(t, "wellknown6") == 0 {
+		// IPv6 prefixes that embed an IPv4 address (IPv4-mapped ::ffff:0:0/96, IPv4-compatible ::/96,
+		// NAT64 64:ff9b::/96): still IPv6 items, never to be confused with family 1
+		head := rapid.SampledFrom([][]byte{
+			{0, 0, 0, 0, 0, 0, 0, 0, 0, 0, 0xff, 0xff}, {0, 0, 0, 0, 0, 0, 0, 0, 0, 0, 0, 0}, {0, 0x64, 0xff, 0x9b, 0, 0, 0, 0, 0, 0, 0, 0}}).Draw(t, "head6")
+		copy(addr, head)
+		p = rapid.IntRange(96, 128).Draw(t, "p6")
+	}
+	it.Prefix = uint8(p)
 	for i := range addr {
 		switch {
 		case i*8+8 <= p:
